@@ -39,6 +39,21 @@ pub fn check_claim1(depth: u8, h: u64, part: &mut Part) -> Option<Viol> {
   };
   part.validated += 1;
   part.outcome(bound.to_bits());
+  // the same position given with a negative / turned longitude
+  for turned in [lon - TWO_PI, lon + TWO_PI] {
+    match guarded(move || cdshealpix::largest_center_to_vertex_distance(depth, turned, lat)) {
+      Ok(b2) if b2 * (1.0 + SLACK) + ABS_SLACK >= truth => {}
+      other => {
+        return Some(Viol {
+          api: "largest_center_to_vertex_distance".into(),
+          kind: "not-a-bound".into(),
+          case: case1(depth, h, turned, lat),
+          expected: format!(">= {:e} (true centre-to-farthest-vertex distance of cell {}/{}; longitude given as {:e})", truth, depth, h, turned),
+          actual: format!("{:?}", other),
+        })
+      }
+    }
+  }
   if !(bound * (1.0 + SLACK) + ABS_SLACK >= truth) {
     return Some(Viol {
       api: "largest_center_to_vertex_distance".into(),
